@@ -1,13 +1,22 @@
 """C02 — correspondence of the mixed-state model (QV.Model.States.Density, QV.Model.Density, PRBM in QV.Model.Rbm)
 with the real DensityMatrix / PurificationRBM, plus the property oracles evaluated on the implementation:
 brute-force partial trace over {0,1}^H x {0,1}^A of the purified two-network state, Hermitian, eigenvalues >= 0,
-diagonal == probability, trace == normalization, call forms agree, phase aux-bias ignored."""
+diagonal == probability, trace == normalization, call forms agree, phase aux-bias ignored.
+
+SAMPLING PROBE ("... the unnormalised probabilities the model reports AND SAMPLES FROM"): the scripted-bernoulli recorder /
+replay machinery of harness/c05.py is run on the DensityMatrix (k = 0..3, every basis state as start, single vector, no start,
+overwrite, chains continued across calls); the model `run`s PRBM.gibbsStepsB through the driver op c05.replay; the one-pass kernel
+assembled from the public conditionals must be reversible w.r.t. diag rho / trace rho of the implementation.
+
+HISTORY: a case may carry `writes`: after the full evaluation ALL parameters of BOTH networks of the SAME DensityMatrix are
+overwritten (c05.WRITE_MODES) and everything (energies, gamma, pi, rho, probability, normalization in all call forms, sampling)
+is evaluated again with the SAME argument tensor objects and compared with the model at the new parameters."""
 import itertools
 import math
 
 import numpy as np
 
-from . import qc
+from . import c05, qc
 from .common import bits, unbits
 from .qc import torch
 
@@ -18,7 +27,7 @@ FILES = [
 ]
 REQUIRED_THEOREMS = [
     "C02_pi_unit", "C02_rho_eq_partial_trace", "C02_phase_aux_bias_irrelevant", "C02_hermitian", "C02_posSemidef",
-    "C02_diagonal", "C02_trace", "C02_normalization_pos", "C02_call_forms", "C02_rhoDiag_eq_rho_diag",
+    "C02_diagonal", "C02_trace", "C02_normalization_pos", "C02_call_forms", "C02_rhoDiag_eq_rho_diag", "C02_diagonal_sampled",
 ]
 THEOREMS = {
     "rho": "C02_rho_eq_partial_trace (+ C02_hermitian, C02_posSemidef, C02_call_forms)",
@@ -36,7 +45,10 @@ RULE = ("case = (n, h, a, scale, amplitude-net params, phase-net params, alterna
         "seeded subset of pairs in the 1-D form; exp-domain points (rho, probability, normalization) only when every exponent "
         "|Gamma+ + Re Pi| <= 600, log-domain points (energies, gamma, pi) always, plus a few scale-100/300 overflow probes compared in the log "
         "domain only (inf/nan must be of the same class on both sides); non-trivial iff scale > 0 and all of b, c, d of the "
-        "amplitude net non-zero and some phase-net U non-zero; distinct by hash of the case")
+        "amplitude net non-zero and some phase-net U non-zero; distinct by hash of the case; every generated case also carries 7 scripted "
+        "sampling calls (k = 0..3 from every basis state, vector start, no start, continued chain; overwrite / api / draw mode varied) and, "
+        "for two of three cases, 1-2 complete re-parametrisations of the same state object (copy_|assign|zero_add|nograd_copy|reinit+copy_|"
+        "reinit+assign) after each of which everything is evaluated again with the same argument tensors")
 EXP_LIMIT = 600.0
 
 
@@ -124,48 +136,208 @@ def _shape(x, shape, what):
     return x
 
 
+class _In:
+    """the argument tensors of one case, built once and handed to the implementation again in every phase of a history"""
+
+    def __init__(self, st, n, a, sub):
+        rows, auxrows = qc.all_states(n), qc.all_states(a)
+        N, C = len(rows), len(auxrows)
+        self.space_t = torch.tensor(rows, dtype=torch.double)
+        self.aux_t = torch.tensor(auxrows, dtype=torch.double)
+        self.gen_space = st.generate_hilbert_space()
+        self.gen_space_d = self.gen_space.to(dtype=torch.double)
+        self.vrep = self.space_t.repeat_interleave(N, 0)   # pair (i,j) at position i*N+j : v = row i
+        self.vtile = self.space_t.repeat(N, 1)             #                               vp = row j
+        self.sub_t = self.space_t[sub]
+        self.vrepC = self.space_t.repeat_interleave(C, 0)
+        self.auxtile = self.aux_t.repeat(N, 1)
+        self.row = [self.space_t[i] for i in range(N)]     # 1-D arguments (views of the space tensor, as user code slices them)
+        self.aux = [self.aux_t[x] for x in range(C)]
+        self.sampling = c05.Inputs()
+        self._names = ("space_t", "aux_t", "gen_space", "gen_space_d", "vrep", "vtile", "sub_t", "vrepC", "auxtile")
+        self._orig = {k: getattr(self, k).clone() for k in self._names}
+
+    def modified(self):
+        return [k for k in self._names if not torch.equal(getattr(self, k), self._orig[k])] + self.sampling.modified()
+
+
 def _one_case(ctx, case):
     n, h, a, scale = case["n"], case["h"], case["a"], case["scale"]
-    am, ph, d_alt, vec_pairs = case["am"], case["ph"], case["d_alt"], case["vec_pairs"]
-    sub = case["sub"]
+    am, ph = case["am"], case["ph"]
     tag = case.get("tag", "gen")
+    ctx.current_case = case
     st = qc.make_density(n, h, a, am, ph)
+    I = _In(st, n, a, case["sub"])
+    writes = case.get("writes") or []
+
+    nontriv = (scale > 0 and all(x != 0 for x in am["b"]) and all(x != 0 for x in am["c"]) and all(x != 0 for x in am["d"])
+               and any(x != 0 for r in ph["U"] for x in r))
+    ctx.case({k: case[k] for k in ("n", "h", "a", "am", "ph")} | ({"writes": writes} if writes else {}), nontrivial=nontriv,
+             sample={"n": n, "h": h, "a": a, "scale": scale, "am_b": am["b"], "am_d": am["d"], "ph_d": ph["d"], "pairs": 4 ** n, "tag": tag,
+                     "writes": [w["mode"] for w in writes], "sampling_calls": len(case.get("sampling") or [])})
+    for k, v in (("n", n), ("h", h), ("a", a), ("scale", scale)):
+        ctx.count(f"{k}={v}")
+    ctx.count("ph_d=0" if all(x == 0 for x in ph["d"]) else "ph_d!=0")
+    if writes:
+        ctx.count("history_cases")
+    phases = [(None, am, ph)] + [(w["mode"], w["am"], w["ph"]) for w in writes]
+    for i, (wmode, am_i, ph_i) in enumerate(phases):
+        sub = ctx
+        if wmode is not None:
+            c05.rewrite(st, am_i, ph_i, wmode)
+            ctx.count(f"write={wmode}")
+            sub = c05.SubCtx(ctx, outer=case, prefix=f"after write {i} ({wmode}): ", sigsuffix="@rewritten")
+        try:
+            _eval_state(sub, st, case, am_i, ph_i, I)
+        except ShapeMismatch as e:
+            sub.oracle("call form returns the documented shape", False, case, detail=str(e), sig="shape", theorem="C02_call_forms")
+        if case.get("sampling"):
+            sampling_probe(sub, st, case, am_i, I)
+        bad_in = I.modified()
+        sub.oracle("argument tensors unmodified by the evaluation", not bad_in, case, detail={"modified": bad_in}, sig="args-untouched")
+    alt = case.get("alt")
+    if alt is not None:
+        sets = [phases[-1][1:], (alt["am"], alt["ph"])]
+        if all(in_exp_domain(p_am, p_ph, n, h, a) for (p_am, p_ph) in sets):
+            c05.alternation(ctx, st, case, c02_thunks(st, case, I, sets), sets, alt["off"], "alternation")
+            bad_in = I.modified()
+            ctx.oracle("alternation: argument tensors unmodified", not bad_in, case, detail={"modified": bad_in}, sig="args-untouched")
+        else:
+            ctx.count("alternation_skipped(overflow regime)")
+
+
+def np_gamma(p, V, Vp, sign):
+    """Gamma^(+/-) matrix written out in numpy: (f(v) + sign f(v'))/2, f(v) = b.v + sum softplus(Wv + c)"""
+    h, n = len(p["c"]), len(p["b"])
+    W, b, c = _A(p, "W", (h, n)), _A(p, "b", (n,)), _A(p, "c", (h,))
+    f = lambda X: X @ b + np.logaddexp(0.0, X @ W.T + c).sum(-1)  # noqa: E731
+    return 0.5 * (f(V)[:, None] + sign * f(Vp)[None, :])
+
+
+def np_pi(am, ph, V, Vp):
+    """Pi matrix in numpy through the COMPLEX principal logarithm: sum_k log(1 + exp(x_k + i y_k))  (re, im)"""
+    a, n = len(am["d"]), len(am["b"])
+    Ua, d, Up = _A(am, "U", (a, n)), _A(am, "d", (a,)), _A(ph, "U", (a, n))
+    x = ((V @ Ua.T + d)[:, None, :] + (Vp @ Ua.T + d)[None, :, :]) / 2
+    y = ((V @ Up.T)[:, None, :] - (Vp @ Up.T)[None, :, :]) / 2
+    z = np.log(1.0 + np.exp(x + 1j * y))
+    return z.real.sum(-1), z.imag.sum(-1)
+
+
+def c02_thunks(st, case, I, sets):
+    """the observables of C02 in their call forms as (name, call, numpy reference per parameter set, theorem) for c05.alternation;
+    rho / probability / normalization references: the brute-force partial trace (oracle_rho), NOT the library's formula"""
+    n, h, a = case["n"], case["h"], case["a"]
+    rows = qc.all_states(n)
+    N = len(rows)
+    V = np.asarray(rows, dtype=np.float64)
+    i0, j0 = case["vec_pairs"][0]
+    refs = []
+    for (am, ph) in sets:
+        Ll, Lm = oracle_state(am, ph, n, h, a, rows)
+        R = oracle_rho(Ll, Lm)
+        pr, pim = np_pi(am, ph, V, V)
+        refs.append({"R": R, "diag": np.diag(R).real.copy(), "pi_re": pr, "pi_im": pim,
+                     "g_am_p": np_gamma(am, V, V, 1.0), "g_ph_m": np_gamma(ph, V, V, -1.0),
+                     "E_am": c05.np_energy("dens", am, rows), "E_ph": c05.np_energy("dens", ph, rows), "Eaux": -Ll})
+    cx = lambda t: _np(t)  # noqa: E731
+    ri = lambda k, M: np.stack([refs[k][M].real, refs[k][M].imag])  # noqa: E731
+    T = THEOREMS
+    return [
+        ("rho(space, space)", lambda: cx(st.rho(I.space_t, I.space_t)), lambda k: ri(k, "R"), T["rho"]),
+        ("probability(space)", lambda: cx(st.probability(I.space_t, 1.0)), lambda k: refs[k]["diag"], T["probability"]),
+        ("normalization(generated space)", lambda: np.array([float(st.normalization(I.gen_space))]), lambda k: np.array([refs[k]["diag"].sum()]), T["normalization"]),
+        ("rho(space) vp=None", lambda: cx(st.rho(I.space_t)), lambda k: ri(k, "R"), T["rho"]),
+        ("rho(v, vp, expand=False)", lambda: cx(st.rho(I.vrep, I.vtile, expand=False)), lambda k: ri(k, "R").reshape(2, N * N), T["rho"]),
+        ("rho 1-D", lambda: cx(st.rho(I.row[i0], I.row[j0])).ravel(), lambda k: np.array([refs[k]["R"][i0, j0].real, refs[k]["R"][i0, j0].imag]), T["rho"],
+         lambda k: float(np.sqrt(refs[k]["diag"][i0] * refs[k]["diag"][j0]))),
+        ("rho(space, expand=False)", lambda: cx(st.rho(I.space_t, expand=False)), lambda k: np.stack([refs[k]["diag"], np.zeros(N)]), T["rho_diag"]),
+        ("rho(generated space)", lambda: cx(st.rho(I.gen_space_d, I.gen_space_d)), lambda k: ri(k, "R"), T["rho"]),
+        ("pi(space, space)", lambda: cx(st.pi(I.space_t, I.space_t)), lambda k: np.stack([refs[k]["pi_re"], refs[k]["pi_im"]]), "C02_pi_unit", 1.0),
+        ("pi(v, vp, expand=False)", lambda: cx(st.pi(I.vrep, I.vtile, expand=False)),
+         lambda k: np.stack([refs[k]["pi_re"].ravel(), refs[k]["pi_im"].ravel()]), "C02_pi_unit", 1.0),
+        ("pi 1-D", lambda: cx(st.pi(I.row[i0], I.row[j0])).ravel(), lambda k: np.array([refs[k]["pi_re"][i0, j0], refs[k]["pi_im"][i0, j0]]), "C02_pi_unit", 1.0),
+        ("gamma[am,+](space, space)", lambda: cx(st.rbm_am.gamma(I.space_t, I.space_t, eta=1, expand=True)), lambda k: refs[k]["g_am_p"], T["rho"], 1.0),
+        ("gamma[ph,-](v, vp, expand=False)", lambda: cx(st.rbm_ph.gamma(I.vrep, I.vtile, eta=-1, expand=False)), lambda k: refs[k]["g_ph_m"].ravel(), T["rho"], 1.0),
+        ("gamma[ph,-] 1-D", lambda: np.array([float(st.rbm_ph.gamma(I.row[i0], I.row[j0], eta=-1))]), lambda k: np.array([refs[k]["g_ph_m"][i0, j0]]), T["rho"], 1.0),
+        ("effective_energy[am](space)", lambda: cx(st.rbm_am.effective_energy(I.space_t)), lambda k: refs[k]["E_am"], T["probability"], 1.0),
+        ("effective_energy[ph](space)", lambda: cx(st.rbm_ph.effective_energy(I.space_t)), lambda k: refs[k]["E_ph"], None, 1.0),
+        ("effective_energy[am](v, a)", lambda: cx(st.rbm_am.effective_energy(I.vrepC, I.auxtile)).reshape(N, -1), lambda k: refs[k]["Eaux"], T["probability"], 1.0),
+    ]
+
+
+def in_exp_domain(am, ph, n, h, a):
+    Ll, _ = oracle_state(am, ph, n, h, a, qc.all_states(n))
+    return bool(np.all(np.isfinite(Ll)) and float(np.max(np.abs(Ll))) <= 0.5 * EXP_LIMIT)
+
+
+def sampling_probe(ctx, st, case, am, I):
+    """the distribution the state SAMPLES FROM: (1) one-pass kernel P assembled from the public conditionals of the amplitude network is
+    reversible w.r.t. diag rho (implementation) and equals the law of the model's gibbsStep; (2) every scripted call of sample / gibbs_steps
+    presents exactly those conditionals, pass after pass, and agrees with the model's gibbsStepsB `run` on the recorded draws
+    (=> k-pass law = P^k, C05_k_step_law_purif; every P^k leaves diag rho / trace invariant and is reversible w.r.t. it: C02_diagonal_sampled)"""
+    n, h, a = case["n"], case["h"], case["a"]
+    N = 2 ** n
+    inp = I.sampling
+    sub = c05.SubCtx(ctx, outer=case, prefix="sampling: ", sigprefix="sampling/", theorem="C02_diagonal_sampled (= C02_diagonal + C05_invariant_k_purif), C05_k_step_law_purif", countprefix="sampling:")
+    P = c05.public_kernel(st, "dens", n, h, a, inp)
+    rows = P.sum(axis=1)
+    sub.oracle("kernel rows sum to 1, entries >= 0", bool(np.all(np.abs(rows - 1) <= 1e-9) and np.all(P >= 0)), case, sig="row-sums", theorem="C05_kernel_purif")
+    if ctx.driver is not None and n + h + a <= 8:
+        mk = ctx.driver.call("c05.kernel", kind="prbm", n=n, h=h, a=a, p=qc.pbits(am))
+        sub.point("kernel(public conditionals) vs law(gibbsStep)", "aux", P, unbits(mk["P"]), case, sig="kernel-law", theorem="C05_kernel_purif")
+    E = _np(st.rbm_am.effective_energy(I.space_t))
+    if np.all(np.isfinite(E)) and float(np.max(np.abs(E))) <= EXP_LIMIT:
+        R = _np(st.rho(I.space_t, I.space_t))
+        diag = np.diag(R[0]).copy()
+        Z = float(st.normalization(I.gen_space))
+        pZ = _np(st.probability(I.space_t, Z))
+        pi = diag / diag.sum()
+        sub.oracle("diag rho / trace rho == probability(v, normalization)", bool(np.all(np.abs(pi - pZ) <= 1e-9 + 1e-7 * pZ)), case,
+                   detail={"diag/trace": pi.tolist(), "p/Z": pZ.tolist()}, sig="diag-vs-reported", theorem="C02_diagonal, C02_trace")
+        flow = pi[:, None] * P
+        err = np.abs(flow - flow.T)
+        bad = np.argwhere(err > 1e-9 + 1e-6 * np.maximum(flow, flow.T))
+        sub.oracle("detailed balance: diag rho(v) P(v,v') == diag rho(v') P(v',v)", len(bad) == 0, case,
+                   detail=None if len(bad) == 0 else {"v": int(bad[0][0]), "vp": int(bad[0][1]), "lhs": float(flow[bad[0][0], bad[0][1]]),
+                                                      "rhs": float(flow[bad[0][1], bad[0][0]])}, sig="detailed-balance", theorem="C02_diagonal_sampled, C05_detailed_balance_purif")
+        for kk in (1, 3):
+            Pk = np.linalg.matrix_power(P, kk)
+            sub.oracle(f"invariance: (diag rho / trace) P^{kk} == diag rho / trace", bool(np.all(np.abs(pi @ Pk - pi) <= 1e-9 + 1e-6 * pi)), case,
+                       detail={"pi": pi.tolist(), "piPk": (pi @ Pk).tolist()}, sig=f"invariance-{kk}", theorem="C02_diagonal_sampled, C05_invariant_k_purif")
+    for j, spec in enumerate(case["sampling"]):
+        sc = dict(spec, kind="dens", n=n, h=h, a=a)
+        c05.replay_body(c05.SubCtx(ctx, outer=case, prefix=f"sampling call {j}: ", sigprefix="sampling/", theorem="C02_diagonal_sampled (= C02_diagonal + C05_invariant_k_purif), C05_k_step_law_purif",
+                                   countprefix="sampling:"), st, sc, am, inp=inp, ikey=f"start.{j}")
+
+
+def _eval_state(ctx, st, case, am, ph, I):
+    """everything the property names, evaluated on the state object `st` which is supposed to carry the parameters (am, ph)"""
+    n, h, a = case["n"], case["h"], case["a"]
+    d_alt, vec_pairs, sub = case["d_alt"], case["vec_pairs"], case["sub"]
     rows = qc.all_states(n)
     N = len(rows)
     auxrows = qc.all_states(a)
     C = len(auxrows)
-    space_t = torch.tensor(rows, dtype=torch.double)
-    aux_t = torch.tensor(auxrows, dtype=torch.double)
-    gen_space = st.generate_hilbert_space()
-    vrep = space_t.repeat_interleave(N, 0)   # pair (i,j) at position i*N+j : v = row i
-    vtile = space_t.repeat(N, 1)             #                               vp = row j
-    sub_t = space_t[sub]
-
-    nontriv = (scale > 0 and all(x != 0 for x in am["b"]) and all(x != 0 for x in am["c"]) and all(x != 0 for x in am["d"])
-               and any(x != 0 for r in ph["U"] for x in r))
-    ctx.case({k: case[k] for k in ("n", "h", "a", "am", "ph")}, nontrivial=nontriv,
-             sample={"n": n, "h": h, "a": a, "scale": scale, "am_b": am["b"], "am_d": am["d"], "ph_d": ph["d"], "pairs": N * N, "tag": tag})
-    for k, v in (("n", n), ("h", h), ("a", a), ("scale", scale)):
-        ctx.count(f"{k}={v}")
-    ctx.count("ph_d=0" if all(x == 0 for x in ph["d"]) else "ph_d!=0")
+    space_t, aux_t, gen_space, vrep, vtile, sub_t = I.space_t, I.aux_t, I.gen_space, I.vrep, I.vtile, I.sub_t
 
     # ------------------------------------------------ implementation: log-domain values
     nets = {"am": st.rbm_am, "ph": st.rbm_ph}
     E = {k: _np(r.effective_energy(space_t)) for k, r in nets.items()}
-    Eaux = {k: _np(r.effective_energy(space_t.repeat_interleave(C, 0), aux_t.repeat(N, 1))).reshape(N, C) for k, r in nets.items()}
-    E1d = {k: np.array([float(r.effective_energy(space_t[i])) for i in (0, N - 1)]) for k, r in nets.items()}
-    Eaux1d = {k: np.array([float(r.effective_energy(space_t[i], aux_t[x])) for (i, x) in ((0, C - 1), (N - 1, 0))]) for k, r in nets.items()}
+    Eaux = {k: _np(r.effective_energy(I.vrepC, I.auxtile)).reshape(N, C) for k, r in nets.items()}
+    E1d = {k: np.array([float(r.effective_energy(I.row[i])) for i in (0, N - 1)]) for k, r in nets.items()}
+    Eaux1d = {k: np.array([float(r.effective_energy(I.row[i], I.aux[x])) for (i, x) in ((0, C - 1), (N - 1, 0))]) for k, r in nets.items()}
     gam = {}
     for k, r in nets.items():
         for nm, eta in (("p", 1), ("m", -1)):
             gam[f"M_{k}_{nm}"] = _shape(_np(r.gamma(space_t, space_t, eta=eta, expand=True)), (N, N), "gamma(space, space)")
             gam[f"S_{k}_{nm}"] = _np(r.gamma(sub_t, space_t, eta=eta, expand=True))
             gam[f"P_{k}_{nm}"] = _np(r.gamma(vrep, vtile, eta=eta, expand=False))
-            gam[f"V_{k}_{nm}"] = np.array([float(r.gamma(space_t[i], space_t[j], eta=eta)) for (i, j) in vec_pairs])
+            gam[f"V_{k}_{nm}"] = np.array([float(r.gamma(I.row[i], I.row[j], eta=eta)) for (i, j) in vec_pairs])
     piM = _shape(_np(st.pi(space_t, space_t, expand=True)), (2, N, N), "pi(space, space)")
     piS = _np(st.pi(sub_t, space_t, expand=True))
     piP = _np(st.pi(vrep, vtile, expand=False))
-    piV = np.array([_np(st.pi(space_t[i], space_t[j])).ravel() for (i, j) in vec_pairs]).reshape(len(vec_pairs), 2)
+    piV = np.array([_np(st.pi(I.row[i], I.row[j])).ravel() for (i, j) in vec_pairs]).reshape(len(vec_pairs), 2)
 
     expo = gam["M_am_p"] + piM[0]
     finite = bool(np.all(np.isfinite(expo)) and np.all(np.isfinite(piM)))
@@ -244,10 +416,10 @@ def _one_case(ctx, case):
     R0 = _shape(_np(st.rho(space_t)), (2, N, N), "rho(space)")
     RS = _shape(_np(st.rho(sub_t, space_t, expand=True)), (2, len(sub), N), "rho(sub, space, expand=True)")
     RP = _shape(_np(st.rho(vrep, vtile, expand=False)), (2, N * N), "rho(v, vp, expand=False)")
-    RV = np.array([_np(st.rho(space_t[i], space_t[j])).ravel() for (i, j) in vec_pairs]).reshape(len(vec_pairs), 2)
-    RV2 = np.array([_np(st.rho(space_t[i], space_t[j], expand=False)).ravel() for (i, j) in vec_pairs]).reshape(len(vec_pairs), 2)
+    RV = np.array([_np(st.rho(I.row[i], I.row[j])).ravel() for (i, j) in vec_pairs]).reshape(len(vec_pairs), 2)
+    RV2 = np.array([_np(st.rho(I.row[i], I.row[j], expand=False)).ravel() for (i, j) in vec_pairs]).reshape(len(vec_pairs), 2)
     RD = _shape(_np(st.rho(space_t, expand=False)), (2, N), "rho(space, expand=False)")
-    RD1 = _np(st.rho(space_t[N - 1], expand=False)).ravel()   # 1-D
+    RD1 = _np(st.rho(I.row[N - 1], expand=False)).ravel()   # 1-D
     p1 = _np(st.probability(space_t, 1.0))
     Z = float(st.normalization(gen_space))
     pZ = _np(st.probability(space_t, Z))
@@ -269,7 +441,7 @@ def _one_case(ctx, case):
             ctx.point(f"rho_im {nm}", "property", a_im, b_im, case, scale=1.0, theorem=THEOREMS["rho"], sig=f"rho/{nm}")
         # the matrix the theorems are stated for: the model's rho over ITS OWN generated space (Density.rhoFull) against the
         # implementation's rho over the space returned by generate_hilbert_space()
-        RG = _shape(_np(st.rho(gen_space.to(dtype=torch.double), gen_space.to(dtype=torch.double))), (2, N, N), "rho(gen_space, gen_space)")
+        RG = _shape(_np(st.rho(I.gen_space_d, I.gen_space_d)), (2, N, N), "rho(gen_space, gen_space)")
         mfull = ctx.driver.call("c02.full", n=n, h=h, a=a, am=qc.pbits(am), ph=qc.pbits(ph))
         a_re, a_im, b_re, b_im = _norm_pair(RG[0], RG[1], unbits(mfull["rho_re"]), unbits(mfull["rho_im"]))
         ctx.point("rho_re generated space", "property", a_re, b_re, case, scale=1.0, theorem="C02_hermitian, C02_posSemidef, C02_trace", sig="rho/full")
@@ -407,19 +579,63 @@ def make_case(rng, n, h, a, scale, d_zero, n_vec, tag="gen"):
     return {"n": n, "h": h, "a": a, "scale": scale, "am": am, "ph": ph, "d_alt": d_alt, "vec_pairs": pairs, "sub": sub, "tag": tag}
 
 
+def sampling_specs(rng, n):
+    """scripted sampling calls of one case: k = 0..3 from every basis state as one batch (n <= 3; else a random batch with repeats), alternating
+    overwrite / api; a single-vector start; no initial state; a chain continued across two calls"""
+    allst = qc.all_states(n)
+    batch = allst + [allst[rng.randrange(len(allst))]] if n <= 3 else [allst[rng.randrange(len(allst))] for _ in range(5)] + [allst[0], allst[-1]]
+
+    def spec(**kw):
+        c = {"vector": False, "overwrite": False, "dtype": "double", "mode": rng.choice(["faithful", "coin"]), "api": "sample",
+             "dseed": rng.randrange(2 ** 31), "k2": None, "overwrite2": False}
+        c.update(kw)
+        c["B"] = kw.get("B", len(c["start"]) if c["start"] is not None else 1)
+        return c
+
+    out = [spec(k=k, start=batch, overwrite=bool((k + rng.randrange(2)) % 2), api=rng.choice(["sample", "gibbs_steps"])) for k in range(4)]
+    out.append(spec(k=rng.randrange(1, 4), start=[allst[rng.randrange(len(allst))]], vector=True, overwrite=rng.random() < 0.5))
+    out.append(spec(k=rng.choice([0, 2, 3]), start=None, B=rng.randrange(1, 5)))
+    out.append(spec(k=rng.randrange(0, 3), start=batch[:4], overwrite=rng.random() < 0.5, k2=rng.randrange(1, 3), overwrite2=rng.random() < 0.5))
+    return out
+
+
+def add_history(rng, case, nwrites, first_mode):
+    """`nwrites` complete re-parametrisations of the same state object (modes of c05.WRITE_MODES), scales chosen independently"""
+    n, h, a = case["n"], case["h"], case["a"]
+    writes = []
+    for q in range(nwrites):
+        sc = rng.choice([0.1, 1.0, 3.0, 10.0])
+        writes.append({"mode": first_mode if q == 0 else rng.choice(c05.WRITE_MODES), "scale": sc,
+                       "am": qc.rand_prbm_params(rng, n, h, a, sc), "ph": qc.rand_prbm_params(rng, n, h, a, sc, d_zero=rng.random() < 0.5)})
+    case["writes"] = writes
+    return case
+
+
 def gen_cases(ctx, thorough):
     archs = [(n, h, a) for n in range(1, 5) for h in range(1, 5) for a in range(1, 5)]
     if not thorough:
         ctx.rng.shuffle(archs)
         archs = sorted(set(archs[:10] + [(2, 3, 1), (3, 1, 2), (4, 2, 3)]))
+    idx = hidx = 0
     for (n, h, a) in archs:
         if thorough:
             plan = [(s, dz) for s in qc.SCALES for dz in (True, False)]
         else:
             s1, s2 = ctx.rng.choice(qc.SCALES[1:4]), ctx.rng.choice(qc.SCALES)
             plan = [(s1, False), (s1, True), (s2, ctx.rng.random() < 0.5)]
-        for (scale, dz) in plan:
-            yield make_case(ctx.rng, n, h, a, scale, dz, 12 if thorough else 3)
+        for q, (scale, dz) in enumerate(plan):
+            case = make_case(ctx.rng, n, h, a, scale, dz, 12 if thorough else 3)
+            case["sampling"] = sampling_specs(ctx.rng, n)
+            # history dimension: quick: two of the three cases of an architecture; thorough: every second case; the first write mode cycles
+            if (q < 2) if not thorough else (idx % 2 == 0):
+                add_history(ctx.rng, case, 2 if hidx % 5 == 4 else 1, c05.WRITE_MODES[hidx % len(c05.WRITE_MODES)])
+                hidx += 1
+            # alternation probe (call / overwrite everything / same call, per observable) against a second parameter set of moderate scale
+            sc = ctx.rng.choice([0.1, 1.0, 3.0])
+            case["alt"] = {"off": idx, "scale": sc, "am": qc.rand_prbm_params(ctx.rng, n, h, a, sc),
+                           "ph": qc.rand_prbm_params(ctx.rng, n, h, a, sc, d_zero=ctx.rng.random() < 0.3)}
+            idx += 1
+            yield case
     # beyond the exp domain (|exponent| > 600, partly beyond float64 range inside pi): log-domain points only
     for k in range(12 if thorough else 2):
         yield make_case(ctx.rng, 3, 4, 4, 100.0 if k % 2 == 0 else 300.0, k % 4 >= 2, 3, tag="overflow-probe")
